@@ -258,6 +258,15 @@ const dupRelChance = 0.03
 // dupRel: occasionally an additional relation target for a relation component already listed
 // (`rN>target`; unsafe path only). The API accepts it: the last target wins, see DESIGN.md N2.
 func (g *Gen) dupRel(names []int, path string) string {
+	if path == "m" {
+		// Map[T] takes its (optional) target as a variadic list: a second target — often a removed entity —
+		// must be validated like the first and then rejected as a duplicate
+		if len(names) == 1 && g.isRel(names[0]) && g.chance(3*dupRelChance) {
+			g.RelTargets["duplicate"]++
+			return fmt.Sprintf(" r%d>%s", names[0], g.pickTarget(0.4))
+		}
+		return ""
+	}
 	if path != "u" || !g.chance(dupRelChance) {
 		return ""
 	}
@@ -919,7 +928,11 @@ func (g *Gen) opSetRel() bool {
 		}
 		parts = append(parts, fmt.Sprintf("c%d>%s", n, tgt))
 	}
-	g.emit(fmt.Sprintf("setrel %s %s %s%s%s", el, p, strings.Join(parts, " "), g.dupRel(cs, p)+g.superRel(cs, p), mapperOpt))
+	dup := ""
+	if p != "m" { // Map[T].SetRelation takes exactly one target
+		dup = g.dupRel(cs, p)
+	}
+	g.emit(fmt.Sprintf("setrel %s %s %s%s%s", el, p, strings.Join(parts, " "), dup+g.superRel(cs, p), mapperOpt))
 	return true
 }
 
